@@ -110,7 +110,7 @@ PlainVals ==
         DictV(P("Int"), P("Int"), <<<<One, One>>>>), DictV(P("String"), Nom("S"), <<<<Simple("String"), sS>>>>),
         DictV(P("String"), Inter({"I1"}), <<<<Simple("String"), sS>>>>), DictV(P("String"), P("AnyStruct"), <<<<Simple("String"), One>>>>),
         DictV(P("String"), P("Int"), << >>),
-        Comp("S"), Comp("S2"), Comp("En"),
+        Comp("S"), Comp("S2"), Comp("S3"), Comp("En"),
         FunV(FALSE, << >>, P("Int")), FunV(TRUE, << >>, P("Int")), FunV(FALSE, <<P("Int")>>, P("Int")), FunV(FALSE, <<P("Integer")>>, P("Void")),
         ArrV(Ref(Conj({"E1"}), Nom("S")), <<RefV(Conj({"E1"}), Nom("S"), "sv")>>)}
 OptVals == {SomeV(One), SomeV(SomeV(One)), SomeV(sS), SomeV(ArrV(P("Int"), <<One>>)), SomeV(RefV(EB!Un, Nom("S"), "sv")),
